@@ -15,6 +15,12 @@
 #include <libb64.h>
 #endif
 #include "codec_common.h"
+#include <unistd.h>
+
+/* wall-clock limit per case: SIGALRM ends the process, the check attributes it to the case being run */
+#ifndef CASE_SECONDS
+#define CASE_SECONDS 20
+#endif
 
 #define SENT 32              /* sentinel bytes around view memory */
 #define SENTV 0xA5
@@ -265,6 +271,7 @@ int main (int argc, char **argv)
   while (next_case ()) {
     const char *op;
     if (g_ntok == 0) continue;
+    alarm (CASE_SECONDS);
     op = g_tok[0];
     if (!strcmp (op, "enc")) op_enc ();
     else if (!strcmp (op, "dec")) op_dec ();
